@@ -230,8 +230,9 @@ _NAMES = ["wf", "wf two", "wf_two", "a b", "a  b", "x/y", "A", "a"]
 
 
 def _gen(nat, rng, n):
-    # every case runs the whole diagram pipeline once per streamed name: a third of the requested number of cases is plenty
-    for _ in range(max(60, n // 3)):
+    # every case runs the whole diagram pipeline once per streamed name: a third of the requested number of cases, at most 400
+    # (the thorough tier asks for up to 20000 cases per function, which would be hours here)
+    for _ in range(min(400, max(60, n // 3))):
         names = rng.sample(_NAMES, rng.randrange(0, 4))
         streams = [[nm, [[rng.choice("ABCD") for _ in range(rng.randrange(1, 4))] for _ in range(rng.randrange(1, 3))]] for nm in names if "/" not in nm]
         loaded = {nm: [[rng.choice("ABCD") for _ in range(rng.randrange(1, 4))] for _ in range(rng.randrange(1, 3))] for nm in rng.sample(_NAMES, rng.randrange(0, 3))}
